@@ -1,103 +1,2 @@
-// C06 wrappers: xtl::any with lifetime-tracking payloads on both sides of the in-place / heap threshold.
-// kinds: 0 empty, 1 int, 2 Small (in place: 8 bytes, nothrow move, copy may throw), 3 Stm (small but throwing move => heap), 4 Big (24 bytes => heap)
-#include <cstdint>
-#include <utility>
-#include <typeinfo>
-#include <xtl/xany.hpp>
-extern "C" { void hook_val(const void* p, int32_t v); void hook_ctor(int32_t cls, const void* p); void hook_dtor(int32_t cls, const void* p); void hook_src(int32_t cls, const void* p); int32_t hook_throw(int32_t site); }
-struct TErr {};
-struct Small { int v; explicit Small(int x) : v(x) { hook_ctor(2, this); hook_val(this, v); }
-    Small(const Small& o) : v(o.v) { hook_src(2, &o); if (hook_throw(1)) throw TErr(); hook_ctor(2, this); hook_val(this, v); }
-    Small(Small&& o) noexcept : v(o.v) { hook_src(2, &o); hook_ctor(2, this); hook_val(this, v); }
-    Small& operator=(const Small& o) { hook_src(2, &o); v = o.v; hook_val(this, v); return *this; } ~Small() { hook_val(this, -1 - v); hook_dtor(2, this); } };
-struct Stm { int v; explicit Stm(int x) : v(x) { hook_ctor(3, this); hook_val(this, v); }
-    Stm(const Stm& o) : v(o.v) { hook_src(3, &o); if (hook_throw(2)) throw TErr(); hook_ctor(3, this); hook_val(this, v); }
-    Stm(Stm&& o) : v(o.v) { hook_src(3, &o); if (hook_throw(3)) throw TErr(); hook_ctor(3, this); hook_val(this, v); }
-    Stm& operator=(const Stm& o) { hook_src(3, &o); v = o.v; hook_val(this, v); return *this; } ~Stm() { hook_val(this, -1 - v); hook_dtor(3, this); } };
-struct Big { int v; int pad[5]; explicit Big(int x) : v(x), pad{1, 2, 3, 4, 5} { hook_ctor(4, this); hook_val(this, v); }
-    Big(const Big& o) : v(o.v), pad{1, 2, 3, 4, 5} { hook_src(4, &o); if (hook_throw(4)) throw TErr(); hook_ctor(4, this); hook_val(this, v); }
-    Big(Big&& o) noexcept : v(o.v), pad{1, 2, 3, 4, 5} { hook_src(4, &o); hook_ctor(4, this); hook_val(this, v); }
-    Big& operator=(const Big& o) { hook_src(4, &o); v = o.v; hook_val(this, v); return *this; } ~Big() { hook_val(this, -1 - v); hook_dtor(4, this); } };
-static_assert(std::is_nothrow_move_constructible<Small>::value && sizeof(Small) <= 2 * sizeof(void*), "Small is stored in place");
-static_assert(!std::is_nothrow_move_constructible<Stm>::value && sizeof(Big) > 2 * sizeof(void*), "Stm and Big are stored on the heap");
-using xtl::any;
-#define W extern "C" __attribute__((noinline)) int64_t
-static inline void build(any& a, int64_t kind, int64_t val)
-{
-    int x = static_cast<int>(val);
-    if (kind == 1) a = x; else if (kind == 2) a = Small(x); else if (kind == 3) a = Stm(x); else if (kind == 4) a = Big(x);
-}
-// out[0] = kind observed through type() (0 empty) [1] = has_value [2] = empty [3] = value via pointer any_cast of the exact type [4] = bits: pointer casts to each of the 4 types non-null
-// [5] = const pointer casts bits [6] = number of reference-form casts (to the 4 types) that threw bad_any_cast [7] = value via reference-form cast of the exact type
-static inline void observe(any& a, int64_t* out)
-{
-    const any& c = a;
-    int64_t k = a.type() == typeid(void) ? 0 : a.type() == typeid(int) ? 1 : a.type() == typeid(Small) ? 2 : a.type() == typeid(Stm) ? 3 : a.type() == typeid(Big) ? 4 : 9;
-    out[0] = k; out[1] = a.has_value(); out[2] = a.empty();
-    int* pi = xtl::any_cast<int>(&a); Small* ps = xtl::any_cast<Small>(&a); Stm* pt = xtl::any_cast<Stm>(&a); Big* pb = xtl::any_cast<Big>(&a);
-    out[3] = pi ? *pi : ps ? ps->v : pt ? pt->v : pb ? pb->v : -1;
-    out[4] = (int64_t)(pi != nullptr) | (int64_t)(ps != nullptr) << 1 | (int64_t)(pt != nullptr) << 2 | (int64_t)(pb != nullptr) << 3;
-    out[5] = (int64_t)(xtl::any_cast<int>(&c) != nullptr) | (int64_t)(xtl::any_cast<const Small>(&c) != nullptr) << 1 | (int64_t)(xtl::any_cast<Stm>(&c) != nullptr) << 2 | (int64_t)(xtl::any_cast<const Big>(&a) != nullptr) << 3;
-    int64_t thrown = 0, val = -1;
-    try { val = xtl::any_cast<int&>(a); } catch (xtl::bad_any_cast&) { ++thrown; }
-    try { val = xtl::any_cast<const Small&>(c).v; } catch (xtl::bad_any_cast&) { ++thrown; }
-    try { val = xtl::any_cast<Stm&>(a).v; } catch (xtl::bad_any_cast&) { ++thrown; }
-    try { val = xtl::any_cast<const Big&>(a).v; } catch (xtl::bad_any_cast&) { ++thrown; }
-    out[6] = thrown; out[7] = val;
-    out[8] = (int64_t)(xtl::any_cast<long>(&a) != nullptr) | (int64_t)(xtl::any_cast<unsigned>(&a) != nullptr) << 1 | (int64_t)(xtl::any_cast<int*>(&a) != nullptr) << 2;   // similar but different types
-}
-W w_op(int64_t k1, int64_t x1, int64_t k2, int64_t x2, int64_t op, int64_t arg, int64_t* o1, int64_t* o2, int64_t* o3)
-{
-    int64_t rc = 0;
-    {
-        any a, b; build(a, k1, x1); build(b, k2, x2);
-        o3[0] = -1;
-        int x = static_cast<int>(arg);
-        try
-        {
-            switch (op)
-            {
-                case 0: { any u(a); observe(u, o3); } break;
-                case 1: { any u(std::move(a)); observe(u, o3); } break;
-                case 2: a = b; break;
-                case 3: a = std::move(b); break;
-                case 4: a = x; break;
-                case 5: { Small s(x); a = s; } break;                 // assignment from an lvalue value (copy, may throw)
-                case 6: a = Small(x); break;                          // from an rvalue (nothrow move)
-                case 7: { Stm s(x); a = s; } break;
-                case 8: { Big g(x); a = g; } break;
-                case 9: a.swap(b); break;
-                case 10: a.swap(a); break;                            // swap with itself
-                case 11: { using std::swap; swap(a, b); } break;
-                case 12: a.reset(); break;
-                case 13: a.clear(); break;
-                case 14: { any u((Big(x))); observe(u, o3); } break;    // construction from a value
-                case 15: { any u; u = a; u = b; observe(u, o3); } break;   // a copy is independent of its source
-                default: { any u(std::move(a)); a = x; observe(u, o3); } break;   // a moved-from any can be assigned
-            }
-        }
-        catch (TErr&) { rc = 1; }
-        catch (...) { rc = 2; }
-        observe(a, o1); observe(b, o2);
-    }
-    return rc;
-}
-// ---- assignment from an any that lives INSIDE the value currently held by the target (a node replaced by its own child) ----
-// (tag first: the ledger identifies objects by address, so the contained any must not share the address of its enclosing Holder)
-struct Holder { long tag; any inner; explicit Holder(any&& i) : tag(77), inner(std::move(i)) { hook_ctor(5, this); }
-    Holder(const Holder& o) : tag(o.tag), inner(o.inner) { hook_src(5, &o); hook_ctor(5, this); } Holder(Holder&& o) noexcept : tag(o.tag), inner(std::move(o.inner)) { hook_src(5, &o); hook_ctor(5, this); }
-    ~Holder() { hook_dtor(5, this); } };
-W w_nested(int64_t k, int64_t x, int64_t how, int64_t* o1)
-{
-    int64_t rc = 0;
-    {
-        any a;
-        try {
-            { any child; build(child, k, x); a = Holder(std::move(child)); }
-            if (how == 0) a = std::move(xtl::any_cast<Holder&>(a).inner);       // move assignment from a sub-object of the held value
-            else a = xtl::any_cast<Holder&>(a).inner;                         // copy assignment from a sub-object of the held value
-        } catch (...) { rc = 2; }
-        observe(a, o1);
-    }
-    return rc;
-}
+// C06 wrappers of the one-step obligations (shared text in wrappers_base.inc)
+#include "wrappers_base.inc"
